@@ -1,9 +1,334 @@
-"""placeholder, filled in below"""
+"""Floating-point kernels (DESIGN.md 2.6).
+
+The real-arithmetic encoding used everywhere else cannot see IEEE rounding.  The only place where
+rounding changes *which sample* bycycle picks are the seconds <-> samples conversions of the plot
+code, limit_df and limit_signal.  This module reads those functions from /repo's CURRENT source,
+finds the conversions in the AST (time-axis constructions, ``int(...)`` offsets, comparisons of
+sample indices / times against limits), translates each into QF_FP (Float64, round-nearest-even;
+``int`` truncates, ``round`` rounds half to even, numpy's arange length is ceil((stop-start)/step)
+computed in double) and asks z3 whether, for a sampling rate fs from a stated list and a sample
+index in one binade [2^k, 2^(k+1)), the conversion can pick a different sample than exact
+arithmetic would.  x-limits "on the sample grid" are the correctly rounded quotients a / fs.
+
+An expression shape the translator does not understand makes the kernel INCONCLUSIVE (never a
+pass).  A satisfiable query is a concrete (fs, index) pair; it is replayed by evaluating the real
+functions with real numpy (see harness/c20.py::run_fp on the real side)."""
+import ast
+import os
+
+TARGETS = [
+    ('bycycle/utils/dataframes.py', 'limit_df'),
+    ('bycycle/utils/timeseries.py', 'limit_signal'),
+    ('bycycle/plts/cyclepoints.py', 'plot_cyclepoints_array'),
+    ('bycycle/plts/burst.py', 'plot_burst_detect_summary'),
+    ('bycycle/plts/burst.py', 'plot_burst_detect_param'),
+]
+FS_QUICK = [1000.0, 250.0, 512.0]
+FS_THOROUGH = [1000.0, 500.0, 250.0, 100.0, 256.0, 512.0, 128.0]
 
 
-def check(ctx):
-    ctx.reachable()
-
-
-def replay(ctx):
+class NotUnderstood(Exception):
     pass
+
+
+def repo_root():
+    return os.environ.get('VCHECK_REPO', '/repo')
+
+
+def _func(path, name):
+    src = open(os.path.join(repo_root(), path)).read()
+    for node in ast.walk(ast.parse(src)):
+        if isinstance(node, ast.FunctionDef) and node.name == name:
+            return node
+    raise NotUnderstood('%s:%s not found' % (path, name))
+
+
+def _mentions(node, names):
+    return any(isinstance(n, ast.Name) and n.id in names for n in ast.walk(node))
+
+
+def _is_np(node, attr):
+    return isinstance(node, ast.Call) and isinstance(node.func, ast.Attribute) and node.func.attr == attr \
+        and isinstance(node.func.value, ast.Name) and node.func.value.id == 'np'
+
+
+def extract():
+    """-> list of kernels: dict(id, path, func, line, kind, src, times_model)."""
+    out = []
+    for path, fname in TARGETS:
+        fn = _func(path, fname)
+        # time-axis constructions in this function
+        models = {}
+        for node in ast.walk(fn):
+            if isinstance(node, ast.Assign) and len(node.targets) == 1 and isinstance(node.targets[0], ast.Name) \
+                    and node.targets[0].id.startswith('times'):
+                v = node.value
+                m = None
+                if _is_np(v, 'arange') and len(v.args) == 3:
+                    m = 'arange3'
+                elif isinstance(v, ast.BinOp) and isinstance(v.op, ast.Div) and _is_np(v.left, 'arange') and len(v.left.args) == 1:
+                    m = 'arange1_div'
+                if m is not None:
+                    models[node.targets[0].id] = m
+                    out.append(dict(path=path, func=fname, line=node.lineno, kind='times:' + m, src=ast.unparse(v)))
+        tmodel = sorted(set(models.values()))
+        # integer names (assigned from int(...)) are exact afterwards
+        int_names = set()
+        for node in ast.walk(fn):
+            if isinstance(node, ast.Assign) and len(node.targets) == 1 and isinstance(node.targets[0], ast.Name):
+                v = node.value
+                if isinstance(v, ast.Call) and isinstance(v.func, ast.Name) and v.func.id == 'int':
+                    int_names.add(node.targets[0].id)
+        for node in ast.walk(fn):
+            if isinstance(node, ast.Call) and isinstance(node.func, ast.Name) and node.func.id == 'int' and node.args \
+                    and _mentions(node.args[0], {'fs'}) and _mentions(node.args[0], {'start', 'stop', 'xlim', 'times'}):
+                out.append(dict(path=path, func=fname, line=node.lineno, kind='offset', src=ast.unparse(node),
+                                times_models=tmodel))
+            if isinstance(node, ast.Compare) and len(node.ops) == 1 and len(node.comparators) == 1:
+                rhs = node.comparators[0]
+                op = type(node.ops[0]).__name__
+                if op not in ('GtE', 'Gt', 'LtE', 'Lt'):
+                    continue
+                if fname == 'limit_signal':
+                    if isinstance(node.left, ast.Name) and node.left.id == 'times' and isinstance(rhs, ast.Name) \
+                            and rhs.id in ('start', 'stop'):
+                        out.append(dict(path=path, func=fname, line=node.lineno, kind='times_cmp', src=ast.unparse(node), op=op))
+                    continue
+                if isinstance(rhs, ast.Call) and isinstance(rhs.func, ast.Name) and rhs.func.id == 'int':
+                    continue        # an int(...) conversion: decided as an 'offset' kernel
+                if _mentions(rhs, {'fs'}) and _mentions(rhs, {'start', 'stop', 'xlim', 'times'}) and not _mentions(rhs, int_names):
+                    out.append(dict(path=path, func=fname, line=node.lineno, kind='index_cmp', src=ast.unparse(node), op=op,
+                                    times_models=tmodel))
+    # callers' time-axis models are what limit_signal receives
+    caller_models = sorted({k['kind'].split(':')[1] for k in out if k['kind'].startswith('times:')})
+    for k in out:
+        if k['kind'] == 'times_cmp':
+            k['times_models'] = caller_models
+        k['id'] = '%s:%s:%d:%s' % (k['path'].split('/')[-1], k['func'], k['line'], k['kind'])
+    # identical shapes are decided once
+    seen, uniq = {}, []
+    for k in out:
+        key = (k['kind'], k['src'], tuple(k.get('times_models', [])))
+        if key in seen:
+            seen[key]['also'].append(k['id'])
+            continue
+        k['also'] = []
+        seen[key] = k
+        uniq.append(k)
+    return uniq
+
+
+# --------------------------------------------------------------------------- translation
+
+class FP:
+    """tiny Float64 term builder over z3 (imported lazily: only the symbolic side has z3)."""
+
+    def __init__(self):
+        import z3
+        self.z3 = z3
+        self.F = z3.Float64()
+        self.RNE = z3.RNE()
+
+    def val(self, x):
+        return self.z3.FPVal(float(x), self.F)
+
+    def of_bv(self, bv):
+        return self.z3.fpUnsignedToFP(self.RNE, bv, self.F)
+
+    def bin(self, op, a, b):
+        z3 = self.z3
+        return {ast.Add: z3.fpAdd, ast.Sub: z3.fpSub, ast.Mult: z3.fpMul, ast.Div: z3.fpDiv}[op](self.RNE, a, b)
+
+
+def translate(node, env, fp):
+    """AST expression -> Float64 term.  ``env`` maps source sub-expressions (unparsed) to terms."""
+    key = ast.unparse(node)
+    if key in env:
+        return env[key]
+    if isinstance(node, ast.Constant) and isinstance(node.value, (int, float)) and not isinstance(node.value, bool):
+        return fp.val(node.value)
+    if isinstance(node, ast.BinOp) and type(node.op) in (ast.Add, ast.Sub, ast.Mult, ast.Div):
+        return fp.bin(type(node.op), translate(node.left, env, fp), translate(node.right, env, fp))
+    if isinstance(node, ast.UnaryOp) and isinstance(node.op, ast.USub):
+        return fp.z3.fpNeg(translate(node.operand, env, fp))
+    raise NotUnderstood('cannot translate %r' % key)
+
+
+def elem(model, i_fp, fs_fp, fp):
+    """value of element i of the time axis."""
+    if model == 'arange3':          # np.arange(0, n/fs, 1/fs)[i] = 0 + i * (1/fs)
+        return fp.bin(ast.Mult, i_fp, fp.bin(ast.Div, fp.val(1.0), fs_fp))
+    if model == 'arange1_div':      # (np.arange(n) / fs)[i] = i / fs
+        return fp.bin(ast.Div, i_fp, fs_fp)
+    raise NotUnderstood('time-axis model ' + model)
+
+
+def int_like(node, env, fp, a_fp):
+    """condition: python int(...) of the expression equals the index ``a`` (as Float64 term a_fp)."""
+    z3 = fp.z3
+    one, half = fp.val(1.0), fp.val(0.5)
+    arg = node.args[0]
+    if isinstance(arg, ast.Call) and ((isinstance(arg.func, ast.Name) and arg.func.id == 'round') or _is_np(arg, 'round')
+                                      or _is_np(arg, 'rint')) and len(arg.args) == 1:
+        x = translate(arg.args[0], env, fp)
+        r = z3.fpRoundToIntegral(z3.RNE(), x)           # round half to even
+        return z3.fpEQ(r, a_fp)
+    x = translate(arg, env, fp)
+    # int() truncates toward zero; indices are >= 0:  a <= x < a + 1
+    return z3.And(z3.fpLEQ(a_fp, x), z3.fpLT(x, fp.bin(ast.Add, a_fp, one)))
+
+
+def same_integers(op, rhs, k_fp, fp):
+    """{integer X : X op rhs} == {integer X : X op k}."""
+    z3 = fp.z3
+    one = fp.val(1.0)
+    lo, hi = fp.bin(ast.Sub, k_fp, one), fp.bin(ast.Add, k_fp, one)
+    if op in ('GtE', 'Lt'):        # k-1 < rhs <= k
+        return z3.And(z3.fpLT(lo, rhs), z3.fpLEQ(rhs, k_fp))
+    return z3.And(z3.fpLEQ(k_fp, rhs), z3.fpLT(rhs, hi))     # Gt, LtE: k <= rhs < k+1
+
+
+def obligations(kernel, fs, a_bv, fp):
+    """-> list of (z3 Bool that must hold, description) for index ``a`` (BitVec) and rate fs."""
+    z3 = fp.z3
+    a = fp.of_bv(a_bv)
+    fsv = fp.val(fs)
+    kind = kernel['kind']
+    node = ast.parse(kernel['src'], mode='eval').body
+    grid = fp.bin(ast.Div, a, fsv)                        # an x-limit on the sample grid: a / fs
+    out = []
+    if kind == 'times:arange3':
+        # length = ceil((stop - 0) / step) must be n (= a)
+        env = {ast.unparse(node.args[1].left): a, 'fs': fsv}
+        stop = translate(node.args[1], env, fp)
+        step = translate(node.args[2], env, fp)
+        q = fp.bin(ast.Div, stop, step)
+        out.append((z3.And(z3.fpLT(fp.bin(ast.Sub, a, fp.val(1.0)), q), z3.fpLEQ(q, a)),
+                    'time axis has exactly one entry per sample'))
+        return out
+    if kind == 'times:arange1_div':
+        return out          # np.arange(n) / fs: exact length by construction
+    models = kernel.get('times_models') or ['arange3']
+    if kind == 'offset':
+        for m in models:
+            env = {'fs': fsv, 'start': grid, 'stop': grid, 'xlim[0]': grid, 'xlim[1]': grid,
+                   'times[0]': elem(m, a, fsv, fp), 'times[-1]': elem(m, a, fsv, fp)}
+            out.append((int_like(node, env, fp, a), 'sample offset equals the index of the limit (%s time axis)' % m))
+        return out
+    if kind == 'index_cmp':
+        rhs_node = node.comparators[0]
+        for m in models:
+            env = {'fs': fsv, 'start': grid, 'stop': grid, 'xlim[0]': grid, 'xlim[1]': grid,
+                   'times[0]': elem(m, a, fsv, fp), 'times[-1]': elem(m, a, fsv, fp)}
+            rhs = translate(rhs_node, env, fp)
+            out.append((same_integers(kernel['op'], rhs, a, fp),
+                        'comparison selects the same samples as the exact limit (%s time axis)' % m))
+        return out
+    if kind == 'times_cmp':
+        op = kernel['op']
+        am1 = fp.bin(ast.Sub, a, fp.val(1.0))
+        for m in models:
+            ta, tb = elem(m, a, fsv, fp), elem(m, am1, fsv, fp)
+            cmpf = {'GtE': z3.fpGEQ, 'Gt': z3.fpGT, 'LtE': z3.fpLEQ, 'Lt': z3.fpLT}[op]
+            want_a = op in ('GtE', 'LtE')       # times[a] op a/fs  as for exact reals
+            want_b = op in ('Lt', 'LtE')        # times[a-1] op a/fs
+            ca, cb = cmpf(ta, grid), cmpf(tb, grid)
+            out.append((z3.And(ca if want_a else z3.Not(ca), cb if want_b else z3.Not(cb)),
+                        'sample selection around a limit on the grid is exact (%s time axis)' % m))
+        return out
+    raise NotUnderstood(kind)
+
+
+# --------------------------------------------------------------------------- harness entry points
+
+def configs(tier):
+    out = []
+    try:
+        kernels = extract()
+    except (NotUnderstood, SyntaxError, OSError) as e:
+        return [{'fn': 'fp', 'kernel': None, 'error': str(e)}]
+    top = 14 if tier == 'quick' else 20
+    for i, k in enumerate(kernels):
+        if k['kind'] == 'times:arange1_div':
+            out.append({'fn': 'fp', 'kernel': i, 'id': k['id'], 'fs': 1000.0, 'k': 0, 'exact': True})
+            continue
+        for fs in (FS_QUICK if tier == 'quick' else FS_THOROUGH):
+            for b in range(0, top):
+                out.append({'fn': 'fp', 'kernel': i, 'id': k['id'], 'fs': fs, 'k': b})
+    return out
+
+
+def check(ctx, cfg):
+    """symbolic side: one (kernel, fs, binade) query."""
+    from engine import symx
+    if cfg.get('kernel') is None:
+        raise symx.ModelGap('floating-point kernels: ' + cfg.get('error', '?'))
+    kernels = extract()
+    kern = kernels[cfg['kernel']]
+    if kern['id'] != cfg['id']:
+        raise symx.ModelGap('kernel list changed during the run')
+    if cfg.get('exact'):
+        ctx.prove(True, 'time axis np.arange(n) / fs has one entry per sample by construction')
+        return
+    fp = FP()
+    z3 = fp.z3
+    E = ctx.E
+    E.use_solver(lambda: z3.Then('simplify', 'fpa2bv', 'simplify', 'bit-blast', 'sat').solver(), E.query_timeout_ms * 6)
+    a = E._declare('a', lambda n: z3.BitVec(n, 21))
+    lo, hi = 1 << cfg['k'], 1 << (cfg['k'] + 1)
+    E.solver.add(z3.UGE(a, lo), z3.ULT(a, hi))
+    try:
+        obl = obligations(kern, cfg['fs'], a, fp)
+    except NotUnderstood as e:
+        raise symx.ModelGap('floating-point kernel %s not understood: %s' % (kern['id'], e))
+    for cond, what in obl:
+        ctx.prove(symx.SymBool(cond), '%s [%s] %s' % (kern['id'], kern['src'], what))
+    if not obl:
+        ctx.reachable()
+
+
+def replay(ctx, cfg):
+    """real side: evaluate the source expression with real numpy / Python floats for the witness."""
+    import numpy as np
+    kernels = extract()
+    kern = kernels[cfg['kernel']]
+    if cfg.get('exact'):
+        return
+    a = ctx.integer('a')
+    fs = cfg['fs']
+    node = ast.parse(kern['src'], mode='eval').body
+    kind = kern['kind']
+    grid = a / fs
+
+    def label(what):
+        return '%s [%s] %s' % (kern['id'], kern['src'], what)
+
+    def times_elem(m, i):
+        if m == 'arange3':
+            return np.arange(0, (i + 2) / fs, 1 / fs)[i]
+        return (np.arange(i + 2) / fs)[i]
+    if kind == 'times:arange3':
+        name = ast.unparse(node.args[1].left)          # e.g. len(sig)
+        arr = eval(compile(ast.Expression(node), '<kernel>', 'eval'),
+                   {'np': np, 'fs': fs, 'len': len, 'sig': np.zeros(a), 'sig_full': np.zeros(a)})
+        ctx.prove(len(arr) == a, label('time axis has exactly one entry per sample'))
+        return
+    for m in kern.get('times_models') or ['arange3']:
+        tarr = np.array([times_elem(m, a)])
+        scope = {'np': np, 'fs': fs, 'start': grid, 'stop': grid, 'xlim': (grid, grid), 'times': tarr,
+                 'int': int, 'round': round}
+        if kind == 'offset':
+            val = eval(compile(ast.Expression(node), '<kernel>', 'eval'), scope)
+            ctx.prove(val == a, label('sample offset equals the index of the limit (%s time axis)' % m))
+        elif kind == 'index_cmp':
+            rhs = eval(compile(ast.Expression(node.comparators[0]), '<kernel>', 'eval'), scope)
+            op = kern['op']
+            ok = (a - 1 < rhs <= a) if op in ('GtE', 'Lt') else (a <= rhs < a + 1)
+            ctx.prove(ok, label('comparison selects the same samples as the exact limit (%s time axis)' % m))
+        elif kind == 'times_cmp':
+            import operator
+            f = {'GtE': operator.ge, 'Gt': operator.gt, 'LtE': operator.le, 'Lt': operator.lt}[kern['op']]
+            ta, tb = times_elem(m, a), times_elem(m, a - 1)
+            want_a, want_b = kern['op'] in ('GtE', 'LtE'), kern['op'] in ('Lt', 'LtE')
+            ctx.prove(bool(f(ta, grid)) == want_a and bool(f(tb, grid)) == want_b,
+                      label('sample selection around a limit on the grid is exact (%s time axis)' % m))
